@@ -9,6 +9,7 @@ use solana_sdk::pubkey::Pubkey;
 pub const PYTH_OWNER: Pubkey = solana_sdk::pubkey!("rec5EKMGg6MxZYaMdyBfgwp4d5rB9T1VQH5pJv5LtFJ");
 pub const SWB_OWNER: Pubkey = solana_sdk::pubkey!("SBondMDrcV3K4kxZR1HNVT7osZxAHVHgYXL5Ze1oMUv");
 pub const KAMINO: Pubkey = solana_sdk::pubkey!("KLend2g3cP87fffoy8q1mQqGKjrxjC8boSyAYavgmjD");
+pub const SOLEND: Pubkey = solana_sdk::pubkey!("So1endDq2YkqhipRh3WViPa8hdiSpxWy6z3Z6tMCpAo");
 /// slot the reference model judges venue staleness against (set by the driver from the Clock it wrote)
 pub static REF_SLOT: std::sync::atomic::AtomicU64 = std::sync::atomic::AtomicU64::new(0);
 pub fn set_slot(s: u64) {
@@ -347,6 +348,55 @@ fn swb_px(o: &OracleIn, cfg_key: &Pubkey, now: i64, max_age: u64, max_conf: &Rat
     Ok(RefPx { spot: p.clone(), spot_kc: kc.clone(), ema: p, ema_kc: kc, max_conf: max_conf.clone(), e, fixed: false })
 }
 
+/// Price of a reserve-backed venue bank (Kamino / Solend): the Pyth price times the exact
+/// liquidity-per-collateral rate `liq / col`, with the error of the program's fixed-point rate and
+/// its fail-closed integer boundaries.
+#[allow(clippy::too_many_arguments)]
+fn venue_px(o: &OracleIn, cfg: &BankConfig, now: i64, max_age: u64, max_conf: &Rat, liq: Rat, col: u64, dec: u64, liq_bits: num_bigint::BigInt) -> Result<RefPx, PxErr> {
+    use num_bigint::BigInt;
+    if dec > 23 {
+        return Err(PxErr::Unsupported);
+    }
+    let scale = pow10(dec as u32);
+    let colr = ru(col as u128);
+    // the program divides both supplies by 10^decimals on the 2^-48 grid before taking the
+    // ratio; a collateral supply below one grid step means "no adjustment"
+    let (l, c) = (&liq / &scale, &colr / &scale);
+    if c < ulp() {
+        return pyth_px(o, &cfg.oracle_keys[0], now, max_age, max_conf, None);
+    }
+    if liq.is_negative() {
+        return Err(PxErr::NegativeOrZeroSupply);
+    }
+    // fail-closed boundary: the adjusted integer price / confidence fields must fit their integer
+    // types (i64 / u64); where exactly that happens is implementation defined, so the grid
+    // arithmetic is reproduced with big integers for this decision only
+    {
+        let p10 = BigInt::from(10u8).pow(dec as u32);
+        let lp = &liq_bits / &p10;
+        let cp = (BigInt::from(col) << 48usize) / &p10;
+        if cp > BigInt::from(0) {
+            let ratio_bits: BigInt = (lp << 48usize) / cp;
+            if let Some((_, price, conf, _, _, ema, ema_conf)) = pyth_decode(o.data) {
+                let fits = |raw: BigInt, lim_bits: u32| -> bool {
+                    let prod: BigInt = (raw * &ratio_bits) >> 48usize;
+                    prod < (BigInt::from(1) << lim_bits as usize) && prod < (BigInt::from(1) << 79usize)
+                };
+                if price < 0 || ema < 0 {
+                    return Err(PxErr::Unsupported);
+                }
+                if !fits(BigInt::from(price), 63) || !fits(BigInt::from(ema), 63) || !fits(BigInt::from(conf), 64) || !fits(BigInt::from(ema_conf), 64) {
+                    return Err(PxErr::Unsupported);
+                }
+            }
+        }
+    }
+    // |rate_prog - l/c| <= max(l*u/(c*(c-u)), u/c)*5 + 2u  (truncated inputs, one division)
+    let u = ulp();
+    let rate_err = if c > &u * ri(2) { rmax(&(&l * &u * ri(5) / (&c * (&c - &u))), &(&u * ri(5) / &c)) + &u * ri(2) } else { &l / &c + one() };
+    pyth_px_x(o, &cfg.oracle_keys[0], now, max_age, max_conf, Some((&liq, &colr)), true, &rate_err)
+}
+
 /// Reference price of a bank from the oracle accounts presented with it.
 pub fn ref_price(b: &Bank, ors: &[OracleIn], now: i64) -> Result<RefPx, PxErr> {
     let cfg = &b.config;
@@ -435,54 +485,47 @@ pub fn ref_price(b: &Bank, ors: &[OracleIn], now: i64) -> Result<RefPx, PxErr> {
                 - sf(std::mem::offset_of!(R, accumulated_protocol_fees_sf))
                 - sf(std::mem::offset_of!(R, accumulated_referrer_fees_sf))
                 - sf(std::mem::offset_of!(R, pending_referrer_fees_sf));
-            let col = ru(u64_at(std::mem::offset_of!(R, mint_total_supply)) as u128);
+            let col = u64_at(std::mem::offset_of!(R, mint_total_supply));
             let dec = u64_at(std::mem::offset_of!(R, mint_decimals));
-            if dec > 23 {
-                return Err(PxErr::Unsupported);
+            use num_bigint::BigInt;
+            let sfb = |o: usize| BigInt::from(u128_at(o) >> 12);
+            let liq_bits = (BigInt::from(u64_at(std::mem::offset_of!(R, available_amount))) << 48usize) + sfb(std::mem::offset_of!(R, borrowed_amount_sf))
+                - sfb(std::mem::offset_of!(R, accumulated_protocol_fees_sf))
+                - sfb(std::mem::offset_of!(R, accumulated_referrer_fees_sf))
+                - sfb(std::mem::offset_of!(R, pending_referrer_fees_sf));
+            venue_px(&ors[0], cfg, now, max_age(false), &max_conf, liq, col, dec, liq_bits)
+        }
+        OracleSetup::SolendPythPull => {
+            use solend_mocks::state::SolendMinimalReserve as R;
+            if ors.len() != 2 {
+                return Err(PxErr::WrongCount);
             }
-            let scale = pow10(dec as u32);
-            // the program divides both supplies by 10^decimals on the 2^-48 grid before taking the
-            // ratio; a collateral supply below one grid step means "no adjustment"
-            let (l, c) = (&liq / &scale, &col / &scale);
-            if c < ulp() {
-                return pyth_px(&ors[0], &cfg.oracle_keys[0], now, max_age(false), &max_conf, None);
+            if ors[1].key != cfg.oracle_keys[1] {
+                return Err(PxErr::WrongKey);
             }
-            if liq.is_negative() {
-                return Err(PxErr::NegativeOrZeroSupply);
+            let n = std::mem::size_of::<R>();
+            let d = ors[1].data;
+            if ors[1].owner != SOLEND || d.len() < 1 + n || d[0] != 1 {
+                return Err(PxErr::BadData);
             }
-            // |rate_prog - l/c| <= max(l*u/(c*(c-u)), u/c) + 5u  (four truncated sf inputs, one division)
-            let u = ulp();
-            let rate_err = if c > &u * ri(2) { rmax(&(&l * &u * ri(5) / (&c * (&c - &u))), &(&u * ri(5) / &c)) + &u * ri(2) } else { &l / &c + one() };
-            // fail-closed boundary: the adjusted integer price / confidence fields must fit their
-            // integer types (i64 / u64); where exactly that happens is implementation defined, so
-            // the grid arithmetic is reproduced with big integers for this decision only
-            {
-                use num_bigint::BigInt;
-                let sfb = |o: usize| BigInt::from(u128_at(o) >> 12);
-                let liq_bits = (BigInt::from(u64_at(std::mem::offset_of!(R, available_amount))) << 48usize) + sfb(std::mem::offset_of!(R, borrowed_amount_sf))
-                    - sfb(std::mem::offset_of!(R, accumulated_protocol_fees_sf))
-                    - sfb(std::mem::offset_of!(R, accumulated_referrer_fees_sf))
-                    - sfb(std::mem::offset_of!(R, pending_referrer_fees_sf));
-                let p10 = BigInt::from(10u8).pow(dec as u32);
-                let lp = &liq_bits / &p10;
-                let cp = (BigInt::from(u64_at(std::mem::offset_of!(R, mint_total_supply))) << 48usize) / &p10;
-                if cp > BigInt::from(0) {
-                    let ratio_bits: BigInt = (lp << 48usize) / cp;
-                    if let Some((_, price, conf, _, _, ema, ema_conf)) = pyth_decode(ors[0].data) {
-                        let fits = |raw: BigInt, lim_bits: u32| -> bool {
-                            let prod: BigInt = (raw * &ratio_bits) >> 48usize;
-                            prod < (BigInt::from(1) << lim_bits as usize) && prod < (BigInt::from(1) << 79usize)
-                        };
-                        if price < 0 || ema < 0 {
-                            return Err(PxErr::Unsupported);
-                        }
-                        if !fits(BigInt::from(price), 63) || !fits(BigInt::from(ema), 63) || !fits(BigInt::from(conf), 64) || !fits(BigInt::from(ema_conf), 64) {
-                            return Err(PxErr::Unsupported);
-                        }
-                    }
-                }
+            let u64_at = |o: usize| u64::from_le_bytes(d[1 + o..1 + o + 8].try_into().unwrap());
+            let u128_at = |o: usize| u128::from_le_bytes(d[1 + o..1 + o + 16].try_into().unwrap());
+            if u64_at(std::mem::offset_of!(R, last_update_slot)) < REF_SLOT.load(std::sync::atomic::Ordering::Relaxed) {
+                return Err(PxErr::Stale);
             }
-            pyth_px_x(&ors[0], &cfg.oracle_keys[0], now, max_age(false), &max_conf, Some((&liq, &col)), true, &rate_err)
+            use num_bigint::BigInt;
+            const WAD: u128 = 1_000_000_000_000_000_000;
+            let wad = |o: usize| Rat::new(BigInt::from(u128_at(o)), BigInt::from(WAD));
+            let liq = ru(u64_at(std::mem::offset_of!(R, liquidity_available_amount)) as u128) + wad(std::mem::offset_of!(R, liquidity_borrowed_amount_wads)) - wad(std::mem::offset_of!(R, liquidity_accumulated_protocol_fees_wads));
+            let col = u64_at(std::mem::offset_of!(R, collateral_mint_total_supply));
+            let dec = d[1 + std::mem::offset_of!(R, liquidity_mint_decimals)] as u64;
+            // WAD decimal -> 2^-48 grid the way the program converts it (integer part, truncated fraction)
+            let d2b = |o: usize| -> BigInt {
+                let raw = u128_at(o);
+                (BigInt::from(raw / WAD) << 48usize) + BigInt::from(((raw % WAD) << 48) / WAD)
+            };
+            let liq_bits = (BigInt::from(u64_at(std::mem::offset_of!(R, liquidity_available_amount))) << 48usize) + d2b(std::mem::offset_of!(R, liquidity_borrowed_amount_wads)) - d2b(std::mem::offset_of!(R, liquidity_accumulated_protocol_fees_wads));
+            venue_px(&ors[0], cfg, now, max_age(false), &max_conf, liq, col, dec, liq_bits)
         }
         _ => Err(PxErr::Unsupported),
     }
